@@ -279,13 +279,17 @@ def numberToString (L : Lib) (x lg : FV) (radixArg : Arg) : Res :=
       if radix = 10 then .str (numToString L x lg)
       else .str (numberToStringRadix x radix.toNat)
 
+/-- builtinNumberToFixed (builtin_number.go:51), after the range check -/
+def toFixedStr (L : Lib) (x lg : FV) (precision : FV) : Str :=
+  if isNaN x then sNaN
+  else if le (ofRatParts false (10 ^ 21) 1) (abs x) then floatToString L x lg
+  else formatFloat L x .f (goInt precision)
+
 /-- builtinNumberToFixed (builtin_number.go:51) -/
 def toFixed (L : Lib) (x lg : FV) (a : Arg) : Res :=
   let precision := toIntegerFloat a.toFloat
   if lt (ofInt 20) precision ∨ lt precision zero then .rangeError
-  else if isNaN x then .str sNaN
-  else if le (ofRatParts false (10 ^ 21) 1) (abs x) then .str (floatToString L x lg)
-  else .str (formatFloat L x .f (goInt precision))
+  else .str (toFixedStr L x lg precision)
 
 /-- builtinNumberToExponential (builtin_number.go:65) -/
 def toExponential (L : Lib) (x : FV) (a : Arg) : Res :=
